@@ -36,7 +36,7 @@ CLAIMED = {
     note='dimension <=2 quick / <=3 thorough (domain: 1 coordinate); floats as reals; box configurations havoc nonlinear intermediates (sound: the final clip establishes containment); integer/boolean parameters and SimpleMutator/SimpleCrossover outside',
     ref='DESIGN.md section 5 C08'),
  'C09': dict(
-    text='Decomposed (whole-run symbolic exploration is out of reach): (1) the body of the generation loop of NSGAII.run is cut out of the current source and executed symbolically from an arbitrary evaluated parent population: exactly N evaluations, N recorded individuals with the right tag, no repeated design, no survivor dominated by a dropped candidate, monotone best cost (m=1), for all cost values; (2) GeneticAlgorithm.generate with arbitrary in-box children returns exactly N pairwise distinct offspring (unwinding 3); (3) Selector.pop_acceptance, all cases, arbitrary costs; (4) run skeletons of NSGA-II / eps-MOEA / OMOPSO / SMPSO with every placement of injected transient failures: budget, tags, sizes, provenance. Parts 1-3 are solver-decided for all values within the size bounds; part 4 is composition glue (concrete objective, seeded randomness, fault placement as solver choice).',
+    text='Decomposed (whole-run symbolic exploration is out of reach): (1) the body of the generation loop of NSGAII.run is cut out of the current source and executed symbolically from an arbitrary evaluated parent population: exactly N evaluations, N recorded individuals with the right tag, no repeated design, no survivor dominated by a dropped candidate, monotone best cost (m=1), for all cost values; (2) GeneticAlgorithm.generate with arbitrary in-box children returns exactly N pairwise distinct offspring (unwinding 3); (3) Selector.pop_acceptance, all cases, arbitrary costs; (4) the whole real NSGAII.run() for G<=3 generations with the uninterpreted objective (generate by contract): budget, tags, sizes, elitism between all consecutive generations, with and without an injected failure; (5) run skeletons of NSGA-II / eps-MOEA / OMOPSO / SMPSO with every placement of injected transient failures: budget, tags, sizes, provenance. Parts 1-4 are solver-decided for all values within the size bounds; part 5 is composition glue (concrete objective, seeded randomness, fault placement as solver choice).',
     note='N=2 (m<=2) quick, N=3 (m=1) thorough; generate unwound 3 iterations (longer paths cut, counted; termination not claimed); skeletons N<=3, G<=3; self.generate replaced by its contract in the step harness',
     ref='DESIGN.md section 5 C09'),
  'C10': dict(
